@@ -108,6 +108,17 @@ func init() {
 						if p.Conn.Closed {
 							return
 						}
+						if w.T.Bool(1, 4, "discovery-read") {
+							// the node's own tree is read while the application changes descriptions and
+							// functions of its features (seed C05-g)
+							cmd := model.CmdType{NodeManagementDetailedDiscoveryData: &model.NodeManagementDetailedDiscoveryDataType{}}
+							c := p.SendCmd(p.NM().Address(), p.LocalNM(), model.CmdClassifierTypeRead, nil, cmd, "read-discovery")
+							if w.T.Bool(1, 2, "await-read") {
+								p.Await(c)
+							}
+							w.Probe("c17-discovery-read")
+							continue
+						}
 						s := pr.Servers[w.T.Choose(len(pr.Servers), "read-feature")]
 						if len(s.Funcs) == 0 {
 							continue
@@ -192,6 +203,19 @@ func init() {
 						_ = rf.DataCopy(model.FunctionTypeMeasurementListData)
 					}
 				}
+			})
+			// descriptions of features and entities change while peers read the tree
+			api1("describe", func() {
+				sf := pr.Servers[w.T.Choose(len(pr.Servers), "described-feature")]
+				switch w.T.Choose(3, "describe-op") {
+				case 0:
+					sf.F.SetDescriptionString(fmt.Sprintf("description-%d", w.Uniq()))
+				case 1:
+					sf.F.SetDescription(nil)
+				default:
+					sf.Ent.E.SetDescription(util.Ptr(model.DescriptionType(fmt.Sprintf("entity-%d", w.Uniq()))))
+				}
+				w.Probe("c17-description-changed")
 			})
 			// heartbeat start / stop
 			api1("heartbeat", func() {
